@@ -11,7 +11,7 @@ here = os.path.dirname(os.path.dirname(os.path.abspath(__file__)))
 
 def cell(s, n):
     s = re.sub(r'\s+', ' ', s or '').replace('|', '\\|')
-    return s if len(s) <= n else s[:n - 1].rstrip() + '…'
+    return s if len(s) <= n else s[:n - 1].rstrip() + '\u2026'
 
 
 rows = ['| id | change | needs | caught by (quick tier) | strengthened |', '|---|---|---|---|---|']
